@@ -183,7 +183,7 @@ prop(
     rule=("limit from {16,20,24,32,64,100,256,1024,4096(,8192,20000)}; extras: none / 1-6 random / dense range of 1-40 / many (to 1000), plus limit-1 (p=2/3) and limit-2 (p=1/2); "
           "kind and close-on-exec per descriptor; redirect plan random incl. shorthands and start-up input; 1-3 such starts in a row in the same process, each with its own limit (so the limit rises and falls between starts). Non-trivial: an inheritable (no close-on-exec) descriptor >= 3 existed, or the highest "
           "permitted number was open and inheritable. Distinct: hash of limit, descriptor numbers and the redirect plan."),
-    essential=dict(quick=["inheritable-extra-descriptor", "highest-permitted-descriptor-open", "hundreds-of-descriptors", "tiny-limit", "large-limit", "concurrent-starts", "several-starts-in-one-process"]),
+    essential=dict(quick=["inheritable-extra-descriptor", "highest-permitted-descriptor-open", "hundreds-of-descriptors", "tiny-limit", "large-limit", "concurrent-starts", "several-starts-in-one-process", "fork-mode"]),
     assumptions=[
         "descriptors at or above the soft limit (possible only if the limit was lowered after opening them) are outside the property's 'up to the descriptor limit'",
         "the refusal branch for limits above 1 048 576 is reached by a getrlimit value fault in C04, not here",
@@ -380,7 +380,7 @@ prop(
     technique="model-based property testing on the virtual-time engine (rapidcheck tape + exhaustive action shapes), stop-contract interpreter as oracle, C and C++ entry points",
     rule=("sweep index -> (action shape of the stored policy, child behaviour); tape -> timeouts, deadline, time of destroy, prior wait, handle state, C or C++. Non-trivial: destroy was called on a "
           "running or unreaped child, or in the failed-start / child-side state. Distinct: hash of policy, behaviour, state and times."),
-    essential=dict(quick=["destroy-on-running-child", "destroy-on-exited-unreaped", "destroy-on-reaped", "default-policy", "via-cxx-destructor", "policy-waits-unbounded", "policy-times-out", "state:failed-start", "state:fork-child-side", "state:not-started", "state:NULL", "with-deadline"]),
+    essential=dict(quick=["destroy-on-running-child", "destroy-on-exited-unreaped", "destroy-on-reaped", "default-policy", "via-cxx-destructor", "policy-waits-unbounded", "policy-times-out", "destroy-after-failed-wait", "state:failed-start", "state:fork-child-side", "state:not-started", "state:NULL", "with-deadline"]),
     assumptions=["in the forked-child state only destroy is legal (reproc.h); nothing more is demanded of it than NULL, no signal, no wait"],
 )
 
@@ -418,7 +418,7 @@ prop(
     technique="stateful model-based property testing (rapidcheck tape decoded into an operation sequence) on the virtual-time engine, sanitizer build as crash oracle",
     rule=("tape -> per step: handle index (3 slots), NULL handle (1/25), operation kind and parameters, child actions. Non-trivial: the sequence contains a call that is misuse in the state it is made (before "
           "start, after exit, after close, twice, on NULL, invalid parameter) and at least one successful start. Distinct: hash of the (operation, state) sequence."),
-    essential=dict(quick=["misuse-call", "successful-start", "several-children", "fork-child-side"]),
+    essential=dict(quick=["misuse-call", "successful-start", "several-children", "fork-child-side", "interrupted-call"]),
     assumptions=["reads are only issued when they cannot block for ever; stdin writes stay below the pipe capacity", "invalid pointers are out of scope by the property's wording"],
 )
 
